@@ -68,6 +68,7 @@ class Registry:
         self.consts = {}
         self.ufuncs = {}
         self.ghostvars = {}
+        self.folds = {}
         self.props = {}
 
     def kind(self, text):
@@ -112,6 +113,11 @@ class Registry:
         rk = self.kind(retkind)
         f = z3.Function(name, *([k.sorts()[0] for k in ks] + [rk.sorts()[0]]))
         self.ufuncs[name] = (f, ks, rk)
+
+    def fold(self, name, over, term, params=(), ret='Real'):
+        """Fold of `term` over the values of a dict kind: name(d, *params) = sum_{k in d} term(d[k], *params).
+        The defining equations (empty, insert, overwrite, delete) are instantiated at every update."""
+        self.folds[name] = {'over': over, 'term': term, 'params': list(params), 'ret': ret}
 
     def ghostvar(self, name, kind):
         """Global symbolic constant (e.g. the content of an external store)."""
